@@ -23,6 +23,8 @@ enum St {
 /// drained, old events were discarded) only a suffix is visible and is matched as such.
 pub fn grammar(events: &[(u64, Ev)], suffix_ok: bool, counts: &mut BTreeMap<String, u64>) -> Result<(), String> {
     let mut st: BTreeMap<Addr, St> = BTreeMap::new();
+    // the total announced per address (must not change between the events of one address)
+    let mut totals: BTreeMap<Addr, u32> = BTreeMap::new();
     for (t, e) in events {
         let Some(a) = e.addr() else {
             *counts.entry(format!("events_{}", e.kind_name())).or_default() += 1;
@@ -30,6 +32,9 @@ pub fn grammar(events: &[(u64, Ev)], suffix_ok: bool, counts: &mut BTreeMap<Stri
         };
         *counts.entry(format!("events_{}", e.kind_name())).or_default() += 1;
         let cur = *st.entry(a).or_insert(if suffix_ok { St::Unknown } else { St::Sync(0) });
+        if let (St::Unknown, Ev::Synchronizing { total, .. }) = (cur, e) {
+            totals.entry(a).or_insert(*total);
+        }
         let next = match (cur, e) {
             (St::Unknown, Ev::Synchronizing { count, total, .. }) if *count >= 1 && count < total => St::Sync(*count),
             (St::Unknown, Ev::Synchronized { .. }) => St::Running,
@@ -37,14 +42,18 @@ pub fn grammar(events: &[(u64, Ev)], suffix_ok: bool, counts: &mut BTreeMap<Stri
             (St::Unknown, Ev::Resumed { .. }) => St::Running,
             (St::Unknown, Ev::Disconnected { .. }) => St::Disconnected,
             (St::Sync(c), Ev::Synchronizing { count, total, .. }) => {
-                if *total != 5 || *count != c + 1 || *count >= *total {
+                let t0 = *totals.entry(a).or_insert(*total);
+                if *total != t0 || *total < 2 || *count != c + 1 || *count >= *total {
                     return Err(format!("t={}ms addr {a}: Synchronizing count {count} of {total} after count {c}", (t - T0) / MS));
                 }
                 St::Sync(*count)
             }
             (St::Sync(c), Ev::Synchronized { .. }) => {
-                if c != 4 {
-                    return Err(format!("t={}ms addr {a}: Synchronized after {c} Synchronizing events (total 5 announced)", (t - T0) / MS));
+                // total: announced for this address, else (no Synchronizing event for it at all) what the library announces
+                // elsewhere in this process
+                let need = totals.get(&a).copied().unwrap_or_else(sync_total);
+                if need != 0 && c + 1 != need {
+                    return Err(format!("t={}ms addr {a}: Synchronized after {c} Synchronizing events (total {need} announced)", (t - T0) / MS));
                 }
                 St::Running
             }
